@@ -377,6 +377,20 @@ Theorem c03_source_content_type_parse_table :
   = map (fun e => (fst e, Some (ctype_tag (snd e)))) ct_table.
 Proof. exact ct_parse_table_tie. Qed.
 
+(* C03.file  a body longer than small_body_len is received into a file when the handler asks for it:
+   the file holds exactly the next Content-Length bytes of what is unread (buffer, then socket); when the
+   peer ends the stream earlier the result is Truncated -- never a shorter body *)
+Theorem c03_file_body_exact :
+  forall len avail,
+    match body_to_file_known len avail with
+    | Some b => N.of_nat (length b) = len /\ exists rest, avail = b ++ rest
+    | None => N.of_nat (length avail) < len
+    end.
+Proof. exact body_to_file_known_exact. Qed.
+
+Theorem c03_translation_complete : src_problems_content_type = 0%nat.
+Proof. exact content_type_translated. Qed.
+
 Print Assumptions c03_framing_agrees.
 Print Assumptions c03_request_is_function_of_head.
 Print Assumptions c03_framing_never_ignored.
@@ -409,3 +423,5 @@ Print Assumptions c03_pipeline_roundtrip_concrete_head_spec.
 Print Assumptions c03_concrete_loop_is_schedule_free.
 Print Assumptions c03_pipeline_roundtrip_concrete.
 Print Assumptions c03_source_content_type_parse_table.
+Print Assumptions c03_file_body_exact.
+Print Assumptions c03_translation_complete.
